@@ -13,7 +13,13 @@ import (
 )
 
 // rebuildSchema turns the "data" JSON of an introspection response into a schema.
-func rebuildSchema(data []byte) (s *schema.Schema, err error) {
+func rebuildSchema(data []byte) (*schema.Schema, error) {
+	s, _, err := rebuildSchemaDef(data)
+	return s, err
+}
+
+// rebuildSchemaDef also returns the rebuilt definition.
+func rebuildSchemaDef(data []byte) (s *schema.Schema, def *schema.SchemaDefinition, err error) {
 	defer func() {
 		if p := recover(); p != nil {
 			err = fmt.Errorf("panic: %v", p)
@@ -23,17 +29,17 @@ func rebuildSchema(data []byte) (s *schema.Schema, err error) {
 		Schema introspection.SchemaData `json:"__schema"`
 	}
 	if err := json.Unmarshal(data, &result); err != nil {
-		return nil, fmt.Errorf("introspection result does not decode into SchemaData: %v", err)
+		return nil, nil, fmt.Errorf("introspection result does not decode into SchemaData: %v", err)
 	}
-	def, err := result.Schema.GetSchemaDefinition()
+	def, err = result.Schema.GetSchemaDefinition()
 	if err != nil {
-		return nil, fmt.Errorf("GetSchemaDefinition: %v", err)
+		return nil, nil, fmt.Errorf("GetSchemaDefinition: %v", err)
 	}
 	s, err = schema.New(def)
 	if err != nil {
-		return nil, fmt.Errorf("schema.New of the rebuilt definition: %v", err)
+		return nil, nil, fmt.Errorf("schema.New of the rebuilt definition: %v", err)
 	}
-	return s, nil
+	return s, def, nil
 }
 
 type verdict struct {
